@@ -18,7 +18,7 @@ func init() {
 	}}
 	properties["C13"] = propDef{run: func(c *Ctx) *PropertyRun {
 		return &PropertyRun{Level: "other", Trusted: trustedBase, Assume: commonAssumptions,
-			Rules: []*RuleResult{c.rule("R2d", ruleR2d)},
+			Rules: []*RuleResult{c.rule("R18", ruleR18), c.rule("R2d", ruleR2d)},
 			Explain: "partial"}
 	}}
 	properties["C17"] = propDef{run: func(c *Ctx) *PropertyRun {
@@ -69,6 +69,11 @@ func init() {
 	properties["C08"] = propDef{run: func(c *Ctx) *PropertyRun {
 		return &PropertyRun{Level: "other", Trusted: trustedBase, Assume: commonAssumptions,
 			Rules: []*RuleResult{c.rule("R14", ruleR14)},
+			Explain: "partial"}
+	}}
+	properties["C14"] = propDef{run: func(c *Ctx) *PropertyRun {
+		return &PropertyRun{Level: "other", Trusted: trustedBase, Assume: commonAssumptions,
+			Rules: []*RuleResult{c.rule("R17", ruleR17)},
 			Explain: "partial"}
 	}}
 }
